@@ -59,7 +59,7 @@ def length_of(v):
     return None
 
 
-def analyse_one(args):
+def _analyse_one_unlimited(args):
     root, fname, rel, tier = args
     repo = Repo(root)
     fn = repo.func(rel, fname)
@@ -207,6 +207,22 @@ def analyse_one(args):
     else:
         out.append(("short-input", {}, "ok" if und is None else "undecided", [] if und is None else und, []))
     return fname, rel, out
+
+
+def _analyse_one_timeout(args, msg):
+    root, fname, rel, tier = args
+    return fname, rel, [("defaults", {}, "undecided", msg, [])]
+
+
+def analyse_one(args):
+    """per-indicator wall-clock budget: an interpretation that blows up is reported as undecided for that indicator"""
+    from vlib.indic_vals import time_limit, TimeBudget as _U
+    try:
+        with time_limit(240, "indicator interpretation"):
+            return _analyse_one_unlimited(args)
+    except _U as e:
+        return _analyse_one_timeout(args, str(e))
+
 
 
 def uses_numba(repo, rel) -> bool:
